@@ -314,7 +314,7 @@ def _verify_cases(argtuple):
         if smt2 is not None:
             qf = None
             if I.axioms or any(z3.is_quantifier(f) for f in o.pc):
-                qf, _ = S.build_query(o.pc, g, o.tag.get('probes'), drop_quantified=True)
+                qf, _ = S.build_query(list(o.pc) + [ax for ax in I.axioms if not z3.is_quantifier(ax)], g, o.tag.get('probes'), drop_quantified=True)
             jobs.append((len(meta) - 1, smt2, names, z3_ms, cvc5_ms, qf))
     for (label, what, pc) in covers:
         smt2, names = S.build_query(pc, None, None, drop_quantified=True)
